@@ -212,8 +212,18 @@ BoolMethod(o, m, args) ==
            ELSE Err
       [] OTHER -> Err
 
+\* the object returned by subproject(): its variables are reachable only through get_variable()
+SubprojMethod(o, m, args) ==
+    CASE m = "get_variable" ->
+           IF ~NArgs(args, 1, 2) \/ args[1].k # "str" THEN Err
+           ELSE IF DictHas(o.e[1], args[1].s) THEN DictGet(o.e[1], args[1].s)
+           ELSE IF Len(args) = 2 THEN args[2] ELSE Err
+      [] m = "found" -> IF args = <<>> THEN VBool(TRUE) ELSE Err
+      [] OTHER -> Unspec
+
 Method(o, m, args, kws) ==
     IF o.k = "int" THEN IntMethod(o, m, args, kws)
+    ELSE IF o.k = "subproj" THEN (IF kws # <<>> THEN Err ELSE SubprojMethod(o, m, args))
     ELSE IF kws # <<>> THEN Err
     ELSE CASE o.k = "str" -> StrMethod(o, m, args)
            [] o.k = "arr" -> ArrMethod(o, m, args)
@@ -252,11 +262,14 @@ Function(name, args, kws, env) ==
                 IF args = <<>> THEN Unspec
                 ELSE LET strs == [i \in 1..Len(args) |-> Stringify(args[i])] IN
                      IF AnyErr(strs) THEN FirstErr(strs) ELSE VVoid
-           [] name \in {"set_variable", "unset_variable"} -> Unspec       \* side effect in expression position
+           [] name \in {"set_variable", "unset_variable", "subdir"} -> Unspec       \* side effect in expression position
+           [] name = "subproject" ->
+                \* only reached when the pre-pass found no such subproject (see Inline): a required subproject that does not exist
+                IF Len(args) = 1 /\ args[1].k = "str" THEN Err ELSE Unspec
            [] OTHER -> Err
 
 \* ---- expressions ---------------------------------------------------------------------------------------
-RECURSIVE Eval(_, _), EvalSeq(_, _), EvalKws(_, _), EvalDict(_, _, _)
+RECURSIVE Eval(_, _), EvalSeq(_, _), EvalKws(_, _), EvalDict(_, _, _), RunSub(_)
 
 \* values of positional arguments; a void or failing argument fails the list
 EvalSeq(nodes, env) == [i \in 1..Len(nodes) |-> LET v == Eval(nodes[i], env) IN IF v.k = "void" THEN Err ELSE v]
@@ -349,6 +362,7 @@ Eval(node, env) ==
                 IN IF AnyErr(vs \o KwVals(kv)) THEN FirstErr(vs \o KwVals(kv))
                    ELSE IF DupKw(kv) \/ \E i \in 1..Len(kv) : kv[i][1] = "kwargs" THEN Unspec
                    ELSE Function(node.v, vs, kv, env)
+      [] k = "subproj" -> RunSub(node)
       [] k \in {"assign", "plusassign"} -> Unspec         \* assignment in expression position: outside the reference
       [] OTHER -> Err                                        \* empty operand, statement keywords
 
@@ -425,6 +439,51 @@ Exec(node, env) ==
       [] OTHER ->
            \* expression statement: evaluated, value discarded
            LET v == Eval(node, env) IN IF IsErr(v) THEN R(env, "err", v.n) ELSE R(env, "next", 0)
+
+\* subproject('name') (node produced by Inline): the subproject's file runs in a store of its own; the result gives
+\* access to its final variables through get_variable() only.  A failing subproject fails the lookup.
+RunSub(node) ==
+    LET r == ExecLines(node.c[1].c, 1, <<>>) IN
+    IF r.sig = "err" THEN Val("err", r.code, <<>>, <<>>)
+    ELSE IF r.sig # "next" THEN Err
+    ELSE Val("subproj", 0, node.cs, <<VDict([i \in 1..Len(r.env) |-> VEnt(r.env[i][1], r.env[i][2])])>>)
+
+\* ---- subdir() and subproject() ---------------------------------------------------------------------------------
+\* files: sequence of <<path (code points), block tree>> for the build files of sub-directories;
+\* subs : sequence of <<name (code points), block tree>> for subprojects.
+\* subdir('d') as a statement is replaced by the statements of d's build file ("runs as if written in place, sharing
+\* all variables"); nested directories are looked up relative to the including directory.  subproject('s') becomes a
+\* "subproj" node holding the subproject's program.
+Lookup(tbl, key) == LET ix == { i \in 1..Len(tbl) : tbl[i][1] = key } IN IF ix = {} THEN Nil ELSE tbl[CHOOSE i \in ix : TRUE][2]
+PlainLiteral(n) == n.k = "str" /\ n.v = "s" /\ n.cs # <<>> /\ \A i \in 1..Len(n.cs) : IsIdChar(n.cs[i])
+OneLiteralArg(call) == Len(call.c[1].c) = 1 /\ call.c[1].d = <<>> /\ call.c[1].n = 0 /\ PlainLiteral(call.c[1].c[1])
+Missing == Node("call", "__missing_build_file__", 0, <<>>, <<Node("args", "", 0, <<>>, <<>>, <<>>, 0, 0)>>, <<>>, 0, 0)
+
+RECURSIVE InlineLines(_, _, _, _), InlineExpr(_, _)
+\* replace subproject('s') inside an expression
+InlineExpr(node, subs) ==
+    IF node.k = "call" /\ node.v = "subproject" /\ OneLiteralArg(node) /\ Lookup(subs, node.c[1].c[1].cs) # Nil
+    THEN Node("subproj", "", 0, node.c[1].c[1].cs, <<Lookup(subs, node.c[1].c[1].cs)>>, <<>>, node.a, node.b)
+    ELSE [node EXCEPT !.c = [i \in 1..Len(node.c) |-> InlineExpr(node.c[i], subs)],
+                      !.d = [i \in 1..Len(node.d) |-> InlineExpr(node.d[i], subs)]]
+
+InlineLines(lines, prefix, files, subs) ==
+    IF lines = <<>> THEN <<>>
+    ELSE LET ln == lines[1]
+             rest == InlineLines(Tail(lines), prefix, files, subs)
+         IN IF ln.k = "call" /\ ln.v = "subdir" /\ OneLiteralArg(ln) THEN
+                 LET path == prefix \o ln.c[1].c[1].cs
+                     sub == Lookup(files, path)
+                 IN IF sub = Nil THEN <<Missing>> \o rest
+                    ELSE InlineLines(sub.c, path \o <<47>>, files, subs) \o rest
+            ELSE IF ln.k = "if" THEN
+                 <<[ln EXCEPT !.c = [i \in 1..Len(ln.c) |->
+                                       IF i % 2 = 0 THEN [ln.c[i] EXCEPT !.c = InlineLines(ln.c[i].c, prefix, files, subs)]
+                                       ELSE InlineExpr(ln.c[i], subs)],
+                              !.d = [i \in 1..Len(ln.d) |-> [ln.d[i] EXCEPT !.c = InlineLines(ln.d[i].c, prefix, files, subs)]]]>> \o rest
+            ELSE <<InlineExpr(ln, subs)>> \o rest
+
+Inline(block, files, subs) == [block EXCEPT !.c = InlineLines(block.c, <<>>, files, subs)]
 
 \* a whole program: break / continue outside a loop is a failure
 Run(block, env) ==
